@@ -116,6 +116,10 @@ package datastore
 //@            callarg(Modify, 1, 3).Priority == callres(GetPriority, 1) && callarg(Modify, 1, 3).Owner == callres(GetName, 11)
 //@   loop 3 invariant former_version_removed_under_its_priority [C02]: called(Modify, 0) ==> callarg(Modify, 0, 3).Store == INTENDED &&
 //@            callarg(Modify, 0, 3).Priority == callres(GetFirstPriorityValue, 2) && callres(GetFirstPriorityValue, 1) != callres(GetPriority, 0) && len(callarg(Modify, 0, 5)) == 0
+// what is removed there is all of the former content, whatever the new version keeps of it
+//@   loop 3 invariant all_of_the_former_version_is_removed_there [C01 C02]: called(Modify, 0) ==> callarg(Modify, 0, 4) == callres(ToStringSlice, 0) &&
+//@            callarg(ToStringSlice, 0, 0) == callres(GetPaths, 0) && callarg(GetPaths, 0, 0) == callres(ToPathSet, 2) &&
+//@            callarg(ToPathSet, 2, 0) == callarg(GetFirstPriorityValue, 2, 0) && callarg(GetFirstPriorityValue, 2, 0) == callarg(GetFirstPriorityValue, 1, 0)
 
 // C01 / C02: the alternatives. The intents left out may hold that many of the best priorities of a path, so one priority
 // more is read; every entry read that is not owned by one of them goes into the tree, the others never do.
